@@ -608,6 +608,39 @@ impl Phase for LongLived {
         self.n
     }
     fn run(&mut self, idx: u64, r: &mut Rng, out: &mut Out) {
+        if idx % 5 == 4 {
+            // deep program: 130-600 levels of right-nested operators / parentheses / calls, effects at every level
+            // (kept within the documented 4096-character input bound)
+            let depth = r.range(130, 330);
+            let mut k = 0i64;
+            let mut a = call("t", 0);
+            let kind = r.below(3);
+            for _ in 0..depth {
+                k += 1;
+                a = match kind {
+                    0 => Ast::Bin("+", Box::new(call("t", k)), Box::new(a)),
+                    1 => Ast::Call("id".into(), Box::new(a)),
+                    _ => Ast::Tuple(vec![call("t", k), a]),
+                };
+            }
+            out.count("deep programs");
+            check_program(out, &a, &base_model(), r);
+            return;
+        }
+        if idx % 5 == 3 {
+            // sequences and argument lists of every size 2..=70 (inline buffers have sizes)
+            let n = 2 + (idx / 5 % 69) as usize;
+            let elems: Vec<Ast> = (1..=n as i64).map(|k| call(if k % 7 == 0 { "b" } else { "t" }, k)).collect();
+            let a = match r.below(4) {
+                0 => Ast::Tuple(elems),
+                1 => Ast::Chain(elems),
+                2 => Ast::Call("id".into(), Box::new(Ast::Tuple(elems))),
+                _ => Ast::Call("max".into(), Box::new(Ast::Tuple(elems.into_iter().filter(|e| matches!(e, Ast::Call(f, _) if f == "t")).collect()))),
+            };
+            out.count("sequences of exact sizes 2..=70");
+            check_program(out, &a, &base_model(), r);
+            return;
+        }
         if idx % 2 == 0 {
             // long program
             let n = r.range(50, 300);
